@@ -160,12 +160,11 @@ theorem taskOK_rebuildX (t : Task) (h : TaskOK' t) : TaskOK' (rebuildX t) := by
     have := h.created_pos
     simp only [List.cons_append, maxTimes_cons] at hu
     unfold Time at *; omega
-  refine { updated := ?_, cleared := ?_, claimTime := ?_, epicFixed := ?_, cStSet := ?_, titled := ?_, titleKept := ?_,
+  refine { updated := ?_, claimTime := ?_, epicFixed := ?_, cStSet := ?_, titled := ?_, titleKept := ?_,
            created_pos := ?_, epicTime := ?_ }
   · simp only [rebuildX, foldl_maxTime, List.map_reverse, maxTimes_reverse, maxTime_eq, List.cons_append, List.nil_append,
       maxTimes_cons]
     exact maxL5_eq _ _ _ _ _ _
-  · intro hc; rw [hcb]; exact h.cleared hc
   · intro hc; rw [hcb] at hc; rw [rebuildX_lastClaim t h hc]; exact h.claimTime hc
   · intro he
     have : emitEpic t = false := by
